@@ -129,6 +129,15 @@ def r_transforms(rule, root=None):
         if len(st) == 1 and len(outer) == 1:
             f = {x["name"]: A.ftxt(x["e"]) for x in st[0]["fields"]}
             o = {x["name"]: A.ftxt(x["e"]) for x in outer[0]["fields"]}
+            if "axis" not in f and st[0].get("rest") is not None:
+                # `Plane { offset: .., ..Plane::YZ }`: the axis is the named plane's (whose definition R1 checks)
+                segs_ = A.path_segs(st[0]["rest"]) or []
+                if len(segs_) == 2 and segs_[0] == "Plane":
+                    for c_ in A.find_items(TYPES, "Const", segs_[1], root):
+                        for s2 in A.find(c_.get("e"), "Struct"):
+                            for x2 in s2["fields"]:
+                                if x2["name"] == "axis":
+                                    f["axis"] = A.ftxt(x2["e"])
             ok = f.get("axis") == "Axis::%s" % ax and f.get("offset") == "v.offset" and o.get("shape") == "v.shape"
             got = f.get("axis")
         if ok:
